@@ -560,7 +560,18 @@ func (in *inst) callExpr(c *astutil.Cursor, n *ast.CallExpr) {
 		return
 	}
 	fn, ok := sel.Obj().(*types.Func)
-	if !ok || fn.Pkg() == nil || fn.Pkg().Path() != "sync" {
+	if !ok || fn.Pkg() == nil {
+		return
+	}
+	// clockwork.Clock.Sleep (interface method): a sleep on the bubble clock
+	if fn.Pkg().Path() == "github.com/jonboulle/clockwork" && fn.Name() == "Sleep" && len(n.Args) == 1 {
+		n.Args = []ast.Expr{&ast.SelectorExpr{X: se.X, Sel: se.Sel}, n.Args[0]}
+		n.Fun = rt("SleepFn")
+		in.st.sleeps++
+		in.used = true
+		return
+	}
+	if fn.Pkg().Path() != "sync" {
 		return
 	}
 	recv := fn.Type().(*types.Signature).Recv().Type()
